@@ -351,7 +351,7 @@ class Gen:
                 return self.fn("fill_null", E("bool"), E("bool"))
         if cls == "string":
             # no str.upper: SQLite's LIKE-based operators are case-insensitive (section 4.5), the alphabet is lower-case only
-            k = r.choice(["concat", "lower", "lower", "strip", "replace", "fill_null", "case", "coalesce", "cast_int", "hmax"])   # no str.slice: D54
+            k = r.choice(["concat", "lower", "lower", "strip", "replace", "fill_null", "case", "coalesce", "cast_int", "hmax", "slice"])
             if k == "concat":
                 return self.fn("add", E("string"), E("string"))
             if k in ("upper", "lower", "strip"):
@@ -1326,12 +1326,20 @@ def _scenario(seed: int, kind: str):
         S(id=l2, op="select", src=l1, cols=lsel)
         S(id=r2, op="select", src=r1, cols=rsel)
         S(id=u, op="union", src=l2, right=r2, distinct=r.random() < 0.3)
-        after = r.choice(["group", "group", "filter", "mutate"])
+        after = r.choice(["group", "group", "filter", "mutate", "group_expr"])
         last = g.fresh_t()
         other = "a" if variant == "const" else "b"
         # the column named by the reference the user still holds from *before* the union (D85), by the union's own, or by name
         kref = r.choice([{"c": "k"}, {"col": [l1, "k"]}, {"col": [u, "k"]}])
-        if after == "group":
+        if after == "group_expr":
+            # … and an *expression* over the pre-union reference (its type was computed when it was built)
+            mz, gb = g.fresh_t(), g.fresh_t()
+            inner = r.choice([{"fn": "add", "args": [{"col": [l1, "k"]}, {"lit": 1}]}, {"cast": {"col": [l1, "k"]}, "to": "int64"},
+                              {"case": [[{"fn": "greater_than", "args": [{"col": [l1, "k"]}, {"lit": 100}]}, {"lit": 0}]], "default": {"col": [l1, "k"]}}])
+            S(id=mz, op="mutate", src=u, cols=[["z", inner]])
+            S(id=gb, op="group_by", src=mz, cols=[{"c": "z"}])
+            S(id=last, op="summarize", src=gb, cols=[["s", {"fn": "sum", "args": [{"c": other}]}], ["n", {"fn": "count_star", "args": []}]])
+        elif after == "group":
             gb = g.fresh_t()
             S(id=gb, op="group_by", src=u, cols=[kref])
             S(id=last, op="summarize", src=gb, cols=[["s", {"fn": "sum", "args": [{"c": other}]}], ["n", {"fn": "count_star", "args": []}]])
@@ -1571,6 +1579,68 @@ def _scenario(seed: int, kind: str):
         else:
             S(id=last, op="mutate", src=cur, cols=[["rn", {"fn": "row_number", "args": [], "arrange": [{"col": [al, "id"]}]}]])
         S(id="x1", op="export", src=last, target="polars", ordered=(what == "arrange"))
+    elif kind == "scen_odd_names":
+        # legal column names that are not python identifiers: blanks, dashes, leading digits, keywords - from the source, from rename,
+        # from mutate / summarize keyword dictionaries
+        a = table("src0", [("unit price", "int"), ("2024", "int"), ("net-total", "int"), ("class", "string")], nrows=r.choice([3, 5]))
+        cur = a.tid
+        steps = r.sample(["rename", "mutate", "select", "filter", "summarize"], r.randint(1, 3))
+        for stp in steps:
+            nxt = g.fresh_t()
+            if stp == "rename":
+                S(id=nxt, op="rename", src=cur, map=[["2024", r.choice(["year 24", "y-24", "24"])]])
+                cur = nxt
+                break
+            if stp == "mutate":
+                S(id=nxt, op="mutate", src=cur, cols=[[r.choice(["a b", "1st", "x-y", "lambda"]), {"fn": "add", "args": [{"col": [a.tid, "unit price"]}, {"lit": 1}]}]])
+            elif stp == "select":
+                S(id=nxt, op="select", src=cur, cols=["id", "net-total", "unit price"])
+                cur = nxt
+                break
+            elif stp == "filter":
+                S(id=nxt, op="filter", src=cur, preds=[{"fn": "is_not_null", "args": [{"col": [a.tid, "net-total"]}]}])
+            else:
+                gb = g.fresh_t()
+                S(id=gb, op="group_by", src=cur, cols=[{"col": [a.tid, "class"]}])
+                S(id=nxt, op="summarize", src=gb, cols=[["sum of totals", {"fn": "sum", "args": [{"col": [a.tid, "net-total"]}]}], ["n-rows", {"fn": "count_star", "args": []}]])
+                cur = nxt
+                break
+            cur = nxt
+        S(id="x1", op="export", src=cur, target="polars", ordered=False)
+    elif kind == "scen_cross_empty":
+        # cross_join returns the full product - the empty one when a side is empty or filtered to nothing
+        a = table("src0", [("a", "int")], nrows=r.choice([2, 4]))
+        b = table("src1", [("b", "int")], nrows=r.choice([0, 3]) if r.random() < 0.5 else 3)
+        right = b.tid
+        if r.random() < 0.6:
+            right = g.fresh_t()
+            S(id=right, op="filter", src=b.tid, preds=[{"fn": "greater_than", "args": [{"col": [b.tid, "id"]}, {"lit": r.choice([100, 1])}]}])
+        cj, last = g.fresh_t(), g.fresh_t()
+        S(id=cj, op="cross_join", src=a.tid, right=right, suffix="_r")
+        S(id=last, op="mutate", src=cj, cols=[["z", {"fn": "add", "args": [{"col": [a.tid, "a"]}, {"lit": 1}]}]])
+        S(id="x1", op="export", src=last, target="polars", ordered=False)
+    elif kind == "scen_hidden_window_group":
+        # the grouping column is a *window* column that a select has hidden; `alias()` directly before the next window function
+        # makes it acceptable (the implicit partition_by carries the hidden column through the subquery)
+        a = table("src0", [("g", "int"), ("x", "int")], nrows=r.choice([5, 7]))
+        m1, gb, sl, al, m2, ug = (g.fresh_t() for _ in range(6))
+        S(id=m1, op="mutate", src=a.tid, cols=[["w", {"fn": "dense_rank", "args": [], "arrange": [{"col": [a.tid, "g"]}]}]])
+        variant = r.choice(["group_hidden", "filter_keep_refs", "group_visible"])
+        if variant == "filter_keep_refs":
+            S(id=sl, op="select", src=m1, cols=["id", "g", "x"])
+            S(id=al, op="alias", src=sl, keep_col_refs=True)
+            S(id=m2, op="filter", src=al, preds=[{"fn": "greater_than", "args": [{"col": [m1, "w"]}, {"lit": 1}]}])
+            S(id="x1", op="export", src=m2, target="polars", ordered=False)
+        else:
+            S(id=gb, op="group_by", src=m1, cols=[{"col": [m1, "w"]}])
+            cur = gb
+            if variant == "group_hidden":
+                S(id=sl, op="select", src=gb, cols=["id", "g", "x"])
+                cur = sl
+            S(id=al, op="alias", src=cur)
+            S(id=m2, op="mutate", src=al, cols=[["s", {"fn": "sum", "args": [{"col": [al, "x"]}]}], ["rn", {"fn": "row_number", "args": [], "arrange": [{"col": [al, "id"]}]}]])
+            S(id=ug, op="ungroup", src=m2)
+            S(id="x1", op="export", src=ug, target="polars", ordered=False)
     elif kind == "scen_empty_args":
         # verbs called without arguments are legal and do nothing: filter() keeps every row, mutate() / rename({}) / drop()
         # change nothing (arrange needs a key) - between ordinary verbs, on a table with rows
